@@ -3,7 +3,7 @@
    `chunks` is the sequence of writes of the client (ANY bytes, ANY segmentation, closed or silent at
    ANY point); `key` the configured FZF_API_KEY ([] = none); `state`, `parse`, `ready` are oracles:
    the JSON of the getHandler, the verdict of parseSingleActionList, the action channel taking the list. *)
-From Fzf Require Import Prelude HttpSpec HttpModel HttpProofs HttpDumpProofs.
+From Fzf Require Import Prelude HttpSpec HttpModel HttpProofs HttpDumpProofs HttpKeyProofs.
 Open Scope Z_scope.
 
 (* No byte stream wedges or crashes the handler: it always produces an outcome (the fuel computed from the
@@ -81,6 +81,44 @@ Theorem remote_needs_key : forall a host port,
   (forall key h p, start_decision a key = StartListen h p -> key <> []).
 Proof. exact remote_needs_key_proof. Qed.
 Print Assumptions remote_needs_key.
+
+(* The key a request presents - whatever its framing - is the value of a header with the white space around it
+   removed (strings.TrimSpace, which is idempotent): it never begins or ends with white space. *)
+Theorem presented_trimmed : forall chunks k,
+  provided_key chunks = Ok (Some k) -> trim_space k = k.
+Proof. exact presented_trimmed_proof. Qed.
+Print Assumptions presented_trimmed.
+
+(* A configured key that nobody can present - white space at either end, blank-only keys included - is still a
+   configured key: every request is refused (401, or 400), nothing is executed, nothing revealed. *)
+Theorem unpresentable_key_refused : forall key state parse ready chunks o,
+  key <> [] -> key_presentable key = false ->
+  handle key state parse ready chunks = Ok o ->
+  o_actions o = None /\ o_get o = None /\ (o_code o = 400 \/ o_code o = 401).
+Proof. exact unpresentable_key_refused_proof. Qed.
+Print Assumptions unpresentable_key_refused.
+
+(* startHttpServer as a whole (serve = the start decision, then the handler holding the value of FZF_API_KEY byte
+   for byte): with the variable set to anything but the empty string, a request that does not present exactly
+   that value gets nothing executed and nothing revealed. *)
+Theorem configured_key_enforced : forall a envkey state parse ready chunks o,
+  envkey <> [] ->
+  serve a envkey state parse ready chunks = Ok (Some o) ->
+  provided_key chunks <> Ok (Some envkey) ->
+  o_actions o = None /\ o_get o = None /\ (o_code o = 400 \/ o_code o = 401).
+Proof. exact configured_key_enforced_proof. Qed.
+Print Assumptions configured_key_enforced.
+
+(* A listener on anything but localhost / 127.0.0.1, whatever FZF_API_KEY holds: a request that gets an action
+   executed or the state revealed has presented exactly the value of the variable, and that value is neither
+   empty nor does it begin or end with white space (a blank-only value serves nobody). *)
+Theorem remote_listener_exact_key : forall a host port envkey state parse ready chunks o,
+  parse_listen_address a = LOk host port -> is_local host = false ->
+  serve a envkey state parse ready chunks = Ok (Some o) ->
+  o_actions o <> None \/ o_get o <> None ->
+  envkey <> [] /\ provided_key chunks = Ok (Some envkey) /\ key_presentable envkey = true.
+Proof. exact remote_listener_exact_key_proof. Qed.
+Print Assumptions remote_listener_exact_key.
 
 (* An answered GET hands the getHandler exactly the limit and offset the request line at the start of the
    stream asks for, and neither is negative (the request-line pattern lets no sign through and Atoi bounds
@@ -205,4 +243,28 @@ Proof.
   split; [vm_compute; reflexivity|]. split; [vm_compute; reflexivity|]. split; [vm_compute; reflexivity|].
   split; [vm_compute; reflexivity|]. split; [vm_compute; reflexivity|].
   eexists; split; [vm_compute; reflexivity|split; vm_compute; reflexivity].
+Qed.
+
+(* non-vacuity of the key theorems: a listener on 0.0.0.0 whose FZF_API_KEY is one blank exists (the variable is
+   not empty) and answers a key-less GET, and a GET presenting a blank, with the 401; with the key "sec" the GET
+   presenting it is served, and what it presented is that key; " sec" is not presentable, "sec" is. *)
+Example c16_key_nonvacuous :
+  let parse := fun b : str => match b with [] => VEmpty | _ => VAccept end in
+  let addr := [48;46;48;46;48;46;48;58;48] in                                                  (* 0.0.0.0:0 *)
+  let get k := [[71;69;84;32;47;32;72;84;84;80;47;49;46;49;13;10] ++                           (* GET / HTTP/1.1 *)
+                [88;45;65;80;73;45;75;101;121;58] ++ k ++ [13;10;13;10]] in                     (* X-API-Key:k, blank *)
+  let bare := [[71;69;84;32;47;32;72;84;84;80;47;49;46;49;13;10;13;10]] in
+  serve addr [32] [123;125] parse true bare = Ok (Some unauthorized) /\
+  serve addr [32] [123;125] parse true (get [32]) = Ok (Some unauthorized) /\
+  serve addr [] [123;125] parse true bare = Ok None /\
+  key_presentable [32] = false /\ key_presentable [32;115;101;99] = false /\ key_presentable [115;101;99] = true /\
+  (exists o, serve addr [115;101;99] [123;125] parse true (get [32;115;101;99;9]) = Ok (Some o) /\
+             o_get o = Some (100, 0) /\ o_code o = 200) /\
+  provided_key (get [32;115;101;99;9]) = Ok (Some [115;101;99]) /\
+  spec_presented_key (concat (get [32;115;101;99;9])) = [115;101;99].
+Proof.
+  cbv zeta. split; [vm_compute; reflexivity|]. split; [vm_compute; reflexivity|]. split; [vm_compute; reflexivity|].
+  split; [vm_compute; reflexivity|]. split; [vm_compute; reflexivity|]. split; [vm_compute; reflexivity|].
+  split; [eexists; split; [vm_compute; reflexivity|split; reflexivity]|].
+  split; vm_compute; reflexivity.
 Qed.
